@@ -99,8 +99,11 @@ def main():
     if sys.argv[1:] and os.path.exists(out):
         old = json.load(open(out))
     old.update(matrix)
+    write_md(old)
     json.dump(old, open(out, "w"), indent=1, sort_keys=True)
-    # markdown
+
+
+def write_md(old):
     lines = ["| seed | change (summary) | caught by (check: rules) |", "|---|---|---|"]
     for sid in sorted(old):
         e = old[sid]
@@ -109,7 +112,7 @@ def main():
             continue
         cb = []
         for p in sorted(e["caught_by"]):
-            rules = sorted({f["key"].split("|")[0] for f in e["caught_by"][p]})
+            rules = sorted({f["key"].split("|")[0].split(":")[0] for f in e["caught_by"][p]})
             cb.append(f"{p}: {', '.join(rules)}")
         summ = e["summary"].replace("|", "\\|").replace("\n", " ")
         if len(summ) > 220:
